@@ -453,11 +453,12 @@ def find_token_loop(fn):
         if g.body is None:
             continue
         for lp in walk(g.body):
-            if lp.get("k") not in ("for", "while") or lp.get("cond") is None:
+            if lp.get("k") not in ("for", "while"):
                 continue
             cur_d = None
             quote_d = None
-            for x in walk(lp["cond"]):
+            # for (;;) { c = text[pos]; if (!c) break; ... }: the loop's own tests are the leading statements of its body
+            for x in walk(lp["cond"] if lp.get("cond") is not None else (lp.get("body") or {})):
                 if x.get("k") == "un" and x.get("op") == "*":
                     t = X.strip(x["ch"][0])
                     if t.get("k") == "ref" and t.get("rk") in ("local", "param") and cur_d is None:
